@@ -40,6 +40,11 @@ type Runner struct {
 	// stamps are known to lie inside the int64-nanosecond range, so the canonical oracle need not skip them when the
 	// decoded stamp is the saturation value
 	inRange map[string]bool
+	// tw: the twin API with syntactic validators of the current universe (validators.go; nil: none); twN counts the
+	// twin checks; twLastDec: the bytes whose validated Decode was analysed together with the `enc` line
+	tw        *twin
+	twN       int
+	twLastDec string
 }
 
 // fail reports an oracle failure, at most 25 times per signature: hx keeps 2000 findings per run and
@@ -119,6 +124,23 @@ func (x *Runner) Encode(v reflect.Value, validation bool) (b []byte, outcome str
 	case err != nil:
 		return nil, "err"
 	}
+	// the produced bytes belong to the caller: they must not be a view into the value (or into memory of a custom
+	// type) — overwrite them, compare the value's text and the custom types' memory, restore
+	if checkValue && len(b) > 0 {
+		for i := range b {
+			b[i] ^= 0xff
+		}
+		textAfter, memAfter, tab := ValText(x.Env.Schema, v, TextOpts{}), customMemory(x.Env.Schema, v), tableIntact()
+		for i := range b {
+			b[i] ^= 0xff
+		}
+		tableIntact() // (repairs the table in case the restore above wrote through a view)
+		if textAfter != textBefore || memAfter != before || !tab {
+			x.fail("aliasing", fmt.Sprintf("the encoded value changed when the bytes Encode returned were overwritten: before %s after %s (custom memory intact: %v, table intact: %v); %s",
+				clip(textBefore, 300), clip(textAfter, 300), memAfter == before, tab, x.where())+
+				x.replay("enc "+flagName(validation)+" "+textBefore), x.sig("encoded-bytes-alias-value", "value", validation))
+		}
+	}
 
 	return b, "ok"
 }
@@ -142,6 +164,21 @@ func (x *Runner) Decode(b []byte, validation bool) (v reflect.Value, n int, outc
 		v, n, outcome = reflect.Value{}, 0, "err"
 	default:
 		v, outcome = dst.Elem(), "ok"
+	}
+	// the decoded value belongs to the caller as well: it must not be a view into the input buffer (a caller that
+	// reuses its read buffer would see the value change) — overwrite the buffer, compare the value's text, restore
+	if outcome == "ok" && len(b) > 0 && (x.decCalls%2 == 1 || x.R.Replay != "") {
+		t1 := ValText(x.Env.Schema, v, TextOpts{})
+		for i := range b {
+			b[i] ^= 0xff
+		}
+		t2 := ValText(x.Env.Schema, v, TextOpts{})
+		copy(b, orig)
+		if t1 != t2 {
+			x.fail("aliasing", fmt.Sprintf("the decoded value changed when the input buffer was overwritten after Decode returned: was %s, is %s; input %s; %s",
+				clip(t1, 300), clip(t2, 300), clip(hexs(orig), 200), x.where())+
+				x.replay("dec "+flagName(validation)+" "+hexs(orig)), x.sig("decoded-value-aliases-input", "input", validation))
+		}
 	}
 	// decoding the very same buffer a second time (and with the other validation mode) must agree with the first time
 	x.decCalls++
@@ -199,6 +236,7 @@ func (x *Runner) Exec(op string) string {
 	switch f[0] {
 	case "type":
 		x.Env = nil
+		x.tw = nil
 		x.inRange = nil
 		x.typeLine = op
 		if len(f) < 3 {
@@ -224,6 +262,10 @@ func (x *Runner) Exec(op string) string {
 		}
 		if x.Env == nil {
 			return "err"
+		}
+		if twinEnabled {
+			x.buildTwin()
+			x.settingsOracle()
 		}
 
 		return "ok"
@@ -330,6 +372,7 @@ func (x *Runner) execEnc(v reflect.Value, validation bool) string {
 	s := x.Env.Schema
 	rp := x.replay("enc " + flagName(validation) + " " + ValText(s, v, TextOpts{}))
 	b, out := x.Encode(v, validation)
+	x.twinEnc(v, validation, b, out)
 	if out == "panic" {
 		// not a failure of C01 (a panic is not an accepted value); counted, and the model must agree
 		x.R.Count("encode-panic:" + Classify(s, v, "encode-panic"))
@@ -399,6 +442,7 @@ func reversePerm(items []string) []int {
 func (x *Runner) execDec(b []byte, validation bool) string {
 	s := x.Env.Schema
 	d, n, out := x.Decode(b, validation)
+	x.twinDecLine(b, validation, d, n, out)
 	if out == "panic" {
 		x.fail("decode-panic", fmt.Sprintf("Decode panicked on %s; %s", clip(hexs(b), 200), x.where())+x.replay("dec "+flagName(validation)+" "+hexs(b)),
 			x.sig("decode-panic", "input", validation))
